@@ -23,7 +23,8 @@ def queries(tier):
         qs.append(Query("encode_decode_n8", "C15_huffman.cpp", "h_encode_decode", {"NSYM": 8}, unwind=8 * 8 + 20, timeout=1800,
                         desc="encoder/decoder agreement on an arbitrary valid tree of 8 symbols (measured 250 s)"))
     # code lengths beyond 16 bits need at least 18 symbols: deepest shape only (which side each inner node sits on, symbols and counts symbolic)
-    for n in ((18,) if tier == "quick" else (18, 20, 24)):
+    # (the sibling property forces Fibonacci-like counts along this shape, so 16-bit counters admit it only up to 22 symbols: the n = 24 query was reported vacuous by its witness)
+    for n in ((18,) if tier == "quick" else (18, 20, 22)):
         qs.append(Query("encode_decode_chain_n%d" % n, "C15_huffman.cpp", "h_encode_decode", {"NSYM": n, "CHAIN": 1}, unwind=8 * n + 20, timeout=1800,
                         desc="encoder/decoder agreement on every valid tree of %d symbols of the deepest shape (code lengths up to %d bits), sides, symbols and counts symbolic" % (n, n - 1)))
     n = 3
